@@ -26,6 +26,10 @@ def pivot():
     S.append(EnumSpec("UpperNonAscii", [U("Uber", serialize=["\u00dcber"], aci=True), U("Ecole", serialize=["\u00c9a"], aci=True),
                                         U("Kel", serialize=["\u212a1"], aci=True), U("Low", serialize=["\u00fcb"], aci=True)],
                       derives=d, note="case-insensitive spellings containing non-ASCII UPPER-case letters (U+00DC, U+00C9, Kelvin sign): they fold to nothing"))
+    S.append(EnumSpec("CiToString", [U("Halt", to_string="halt", aci=True), U("Lo", to_string="Lo", serialize=["low"], aci=True, aci_bare=True), U("Go", to_string="GO")],
+                      derives=d, note="case-insensitive variants whose spelling is a to_string literal (alone and next to a serialize)"))
+    S.append(EnumSpec("CiToStringEnum", [U("Halt", to_string="halt"), U("Run", to_string="Run", aci=False), U("Up")], derives=d, aci=True,
+                      note="enum-level flag over to_string spellings"))
     S.append(EnumSpec("Digits", [U("N1", serialize=["123"], aci=True), U("N2", serialize=["4-5"]), U("Mix", serialize=["a1B2"], aci=True)],
                       derives=d, note="digits only / punctuation / mixed"))
     S.append(EnumSpec("Sa", [U("DarkBlack"), U("KissMe", aci=False), U("SkI")], derives=d, aci=True, serialize_all="snake_case",
